@@ -132,6 +132,19 @@ func ordUniverse(thorough bool) []ordSig {
 			}
 		}
 	}
+	// deep stacks: 33 and 40 frames of one class, alone and with one frame of another class
+	for _, n := range []int{33, 40} {
+		for _, cl := range []int{clStdlib, clGoMod, clUnknown} {
+			deep := make([]int, n)
+			for i := range deep {
+				deep[i] = cl
+			}
+			add(deep, nil, false, "chan receive")
+			for _, other := range []int{clMain, clGoPkg, clGOPATH} {
+				add(append(append([]int{}, deep...), other), nil, false, "chan receive")
+			}
+		}
+	}
 	// attribute variants on 1- and 2-frame stacks
 	for _, base := range [][]int{{clStdlib}, {clMain}, {clStdlib, clMain}, {clGoMod, clStdlib}} {
 		for pos := range base {
